@@ -35,7 +35,7 @@ def run(run):
     if run.tier == "quick":
         args = ["-family", "drain", "-mode", "quick", "-n", "20", "-j", "6", "-seed", str(run.seed), "-detail", det]
     else:
-        args = ["-family", "drain", "-mode", "full", "-n", "2500", "-j", "8", "-seed", str(run.seed), "-detail", det]
+        args = ["-family", "drain", "-mode", "full", "-n", "6000", "-j", "8", "-seed", str(run.seed), "-detail", det]
     rc, lines = H.harness(args, timeout=3000)
     details = {}
     if os.path.exists(det):
